@@ -175,9 +175,6 @@ CHECKS = {
             dict(name="wire_layout_RangeZone", what="4-byte range zone"),
             dict(name="c13_op_code", what="op codes 0,1,2 -> bypass / bypass map in control / force"),
             dict(name="c08_accessor_cfm_header", what="generation date-time == get_datetime(date, minutes(time))"),
-        ]),
-        dict(crate="nexrad-decode", files=["drd.rs", "w03.rs"], role="witness", tag="-witness", harnesses=[
-            dict(name="w13_cfm_structure", bounded="<= 1 elevation segment; zone count <= 1 at azimuths 0 and 359, 0 elsewhere", what="numbering, 360 azimuths, declared zone counts, zone bytes, consumed length"),
         ])],
         trusted_base=STD_TRUST + KANI_TRUST + ["reader model + deserialize contract (layouts proved by the three layout harnesses)"],
         explanation="decode_clutter_filter_map extracted verbatim; three nested loop invariants over a ghost cursor prove the "
